@@ -138,6 +138,14 @@ CHECKS["C02"] = dict(
     ref="DESIGN.md §5 C02",
 )
 
+CHECKS["C16"] = dict(
+    level="exploration",
+    text="Runtime monitoring of generate -> import -> parse (strictest settings) -> serialize on seeded DTDs (EMPTY/ANY/#PCDATA/mixed/sequences and choices with ? * + nesting; CDATA/ID/IDREF(S)/NMTOKEN(S)/enumerated attributes with #REQUIRED/#IMPLIED/#FIXED/defaults): documents are random walks of the content models validated by libxml2's DTD validator before use; the reference is libxml2's own reading of the input with the DTD loaded (defaults and #FIXED values materialised); the output must show the same elements, attributes and values, and in the order-preserving sub-fragment (compound fields on) the same order and DTD validity. Held on the executions produced.",
+    note="Trusted: libxml2 DTD validation and attribute defaulting; codegen stand-ins. Parameter entities, conditional sections, notations are not generated. Three open known findings (namespace declared by the DTD not applied to children, tail text after a mixed/ANY child, wrapper field vs sibling of the same name) have dedicated probes with counterfactuals; their triggers are kept out of the random population.",
+    technique="runtime monitoring: generated programs + validated instance documents through the real pipeline, libxml2's DTD-aware infoset as reference oracle",
+    ref="DESIGN.md §5 C16",
+)
+
 FIX_COMMITS = []  # guarded hook commits in /repo (none: all hooks are installed from the harness side)
 
 
